@@ -737,6 +737,9 @@ def safe_parse(out, md):
         return d
 
 
+CASE_TIMEOUT = 10          # seconds per forked driver case (a legitimate case takes milliseconds; big pages < 1 s)
+
+
 def dump_many(requests):
     """Like filecase.dump_many (open + META + DUMP per request, each in its own forked case), with safe_parse."""
     import os
@@ -756,7 +759,7 @@ def dump_many(requests):
         tmps.append(tmp)
         mds.append(md)
     try:
-        outs = filecase.run_scripts(scripts)
+        outs = filecase.run_scripts(scripts, case_timeout=CASE_TIMEOUT)
     finally:
         for t in tmps:
             if t:
@@ -783,11 +786,36 @@ def run_files(rep, cases, rng, tier, stats):
             reqs.append((c.data, mode, False, b, c.maxdef))
             owners.append((k, mode, b))
     t0 = time.time()
-    dumps = dump_many(reqs)
-    stats["read_seconds"] = round(time.time() - t0, 1)
-    stats["reads"] = len(reqs)
+    # the reads go to the driver in slices (a small one first): a tree on which every open hangs or dies must not
+    # cost (number of files) x (case timeout) - once 40 reads have failed the remaining slices are not run
+    order = list(range(len(reqs)))
+    rng.shuffle(order)
+    slices, pos, size = [], 0, 64
+    while pos < len(order):
+        slices.append(order[pos:pos + size])
+        pos += size
+        size = 256 if size == 64 else 1500
     nviol = 0
     results = {}
+    done = 0
+    stats["stopped_early"] = False
+    ncrash = 0
+    for sl in slices:
+        if nviol >= 40 or ncrash >= 8:      # crashes / hangs: every further case may cost a case timeout
+            stats["stopped_early"] = True
+            break
+        dumps = dump_many([reqs[i] for i in sl])
+        ncrash += sum(1 for d in dumps if d.fault)
+        done += len(sl)
+        nviol = _judge_slice(rep, cases, [owners[i] for i in sl], dumps, stats, results, nviol)
+    stats["read_seconds"] = round(time.time() - t0, 1)
+    stats["reads"] = done
+    for c in cases:
+        stats["families"].setdefault(c.family, {"files": 0, "reads": 0, "problems": 0, "chunks_ok": 0, "chunks_err": 0, "open_refused": 0})["files"] += 1
+    return results
+
+
+def _judge_slice(rep, cases, owners, dumps, stats, results, nviol):
     for (k, mode, batch), d in zip(owners, dumps):
         c = cases[k]
         probs = judge(c, d)
@@ -807,9 +835,7 @@ def run_files(rep, cases, rng, tier, stats):
                 rep.violation(f"[{c.label}] mode={mode} batch={batch} expect={c.expect}: {what}: {det}"
                               + (f" (+{len(probs) - 1} more)" if len(probs) > 1 else ""),
                               c.replay_obj(mode, batch), key=c.key)
-    for c in cases:
-        stats["families"].setdefault(c.family, {"files": 0, "reads": 0, "problems": 0, "chunks_ok": 0, "chunks_err": 0, "open_refused": 0})["files"] += 1
-    return results
+    return nviol
 
 
 # ----------------------------------------------------------------------------- corpus
@@ -1083,7 +1109,7 @@ def run_sparse(rep, tier, stats, seed=None):
                 sc.open(mode, True, path)
                 sc.meta().dump(1 << 20, maxdef=case.maxdef).close()
                 scripts.append(sc)
-            outs = filecase.run_scripts(scripts)
+            outs = filecase.run_scripts(scripts, case_timeout=CASE_TIMEOUT)
             for mode, o in zip(("stdio", "mmap"), outs):
                 d = safe_parse(o, case.maxdef)
                 probs = judge(case, d)
@@ -1146,7 +1172,7 @@ def run_histories(rep, cases, rng, tier, stats):
         sc.meta().close()
         scripts.append(sc)
         owners.append((k, r, ci, kk, kind, mode, tmp))
-    outs = filecase.run_scripts(scripts) if scripts else []
+    outs = filecase.run_scripts(scripts, case_timeout=CASE_TIMEOUT) if scripts else []
     import os
     nbad = 0
     for (k, r, ci, kk, kind, mode, tmp), o in zip(owners, outs):
@@ -1247,9 +1273,10 @@ def run(tier):
     stats["files"] = len(cases)
     stats["file_bytes"] = sum(len(c.data) for c in cases)
     results = run_files(rep, cases, rng, tier, stats)
-    run_histories(rep, cases, rng, tier, stats)
-    run_sparse(rep, tier, stats)
-    run_model_tie(rep, cases, results, rng, tier, stats)
+    if not stats.get("stopped_early"):
+        run_histories(rep, cases, rng, tier, stats)
+        run_sparse(rep, tier, stats)
+        run_model_tie(rep, cases, results, rng, tier, stats)
     rep.cov["rule"] = ("files of the reference writer: feature grid {flat,nested} x 5 codecs x 3 encodings x {default, random, BIT_PACKED-level} runs x 4 "
                        "metadata styles x dictionary offset present/absent; random specs (all flags random, zero-length runs, page splits inside records); "
                        "directed one-leaf chains with max_def 0..9 / max_rep 0..3 and dictionaries of 1..1025 entries (index widths 0..11, widened width byte); "
